@@ -45,20 +45,10 @@ AUDITED_INDEX = {
         "softfork_kw is vec![36] (C30 R30e)",
     ("more_ops::op_add", "random_range(rng(), Range(0, 2)) < 2"): "rand's contract: random_range(0..2) is 0 or 1",
     ("more_ops::op_subtract", "random_range(rng(), Range(0, 2)) < 2"): "rand's contract: random_range(0..2) is 0 or 1",
-    ("op_utils::match_args", "%usize < ('usize',)"):
-        "loop invariant counter <= N: counter starts at 0, is tested against N before the store and incremented by one after it",
-    ("op_utils::get_varargs", "%usize < ('usize',)"):
-        "loop invariant counter <= N: counter starts at 0, is tested against N (error) before the store and incremented by one after it",
-    ("traverse_path::traverse_path", "%usize < len(%&[u8])"):
-        "loop invariant first_bit_byte_index <= byte_idx <= len-1: byte_idx starts at len-1 (len >= 1 on this path) and only decreases while > first_bit_byte_index",
 }
 CURSOR_INV = ("Cursor invariant: the position is only advanced by successful reads (never beyond the slice) and by seek/set_position "
               "calls that are guarded by an explicit remaining-length test")
 DECODER_AUDITS = {
-    ("serde::de_br::traverse_path_with_vec", "%usize < len($2)"):
-        "loop invariant first_bit_byte_index <= byte_idx <= len-1 (same loop as traverse_path; C18 compares the two)",
-    ("serde::de_br::traverse_path_with_vec", "%usize < len($3)"):
-        "arg_index starts at len-1 (args non-empty on this path, else parsing_sexp) and only decreases, guarded by arg_index == 0",
     ("serde::de_tree::parse_triples", "((pop(box_assume_init_into_vec_unsafe(new_uninit())) as Some).0 as SaveEnd).0 < len(new())"):
         "SaveEnd(index) is pushed with index = r.len() immediately before r.push(pair): index < len(r) when it is popped",
     ("serde::de_tree::parse_triples", "(((pop(box_assume_init_into_vec_unsafe(new_uninit())) as Some).0 as SaveEnd).0 AddWithOverflow 1).0 < len(new())"):
